@@ -26,3 +26,10 @@ func TestProbeDec(t *testing.T) {
 	runtime.ReadMemStats(&ms)
 	fmt.Println(out, err, time.Since(t0), ms.TotalAlloc-b)
 }
+
+func TestProbeBatch(t *testing.T) {
+	cases := c26Batch(1, 1, 10000)
+	if err := c26WriteBatch("/tmp/wb/batch1.json", cases); err != nil {
+		t.Fatal(err)
+	}
+}
